@@ -26,14 +26,20 @@ CLAIM = dict(
           "slice; norms: two-pass mean/variance), relative tolerance 1e-9 for double operands, 1e-3 (+5e-4 absolute) for single-precision "
           "operands, NaN/inf on one side only = mismatch; besides small well-scaled arrays a 'numerically wide' stream puts slices of one "
           "array on very different scales (offsets 0, +-200, +-1000, the exp thresholds 88/104/709/745), one big constant, near-equal values, "
-          "zeros and negative values. libm and float rounding are outside the model."),
+          "zeros and negative values; a 'scalar parameter' stream drives every epsilon / ord / keepdims / axis argument and every wrapper and "
+          "default overload (cosine_similarity eps and axis; pairwise_distance eps, ord 1..3, keepdims; batch/layer/group norm eps; "
+          "instance_norm_1d/2d/3d and the generic instance_norm eps) with non-default values from 1e-12 to 1 on data where the parameter "
+          "decides the result (vector norms 1e-3 .. 1e-9, exactly-zero rows, one operand tiny and the other O(1), x == y, variance ~ eps, "
+          "constant slices), against the documented PyTorch formulas (cosine: each norm clamped separately) evaluated in double. "
+          "libm and float rounding are outside the model."),
     ref="5.17", technique="Coq proof (symbolic evaluation of the shape pipeline at rank 3/4, index-map lemmas) + differential correspondence with the extracted model", extra="")
 RULE = ("seeded samples of the property's parameter product: batch 1..2, C,O 1..4 with every common divisor as groups, spatial 1..7, "
         "kernel 1..3, stride 1..3, padding 0..2, dilation 1..2 (uniform and per-axis), optional bias, positive output only; five argument-kind "
         "variants (None defaults / run-time scalars / per-axis arrays / compile-time groups / fixed-dimension operands); pooling: rank 2..4, H,W 1..7, kernel 1..3, "
         "stride 1..3, both ceil modes, half of the arrays all-negative, three argument kinds; float routines on dim 1..4 arrays, double and "
         "single precision, small well-scaled data plus the numerically wide stream (per-slice offsets along a random axis, big constants, "
-        "near-equal values, zeros, negatives) for every float routine. "
+        "near-equal values, zeros, negatives) for every float routine, and the scalar-parameter stream (arrays ints/8*2^-e with e up to 30, "
+        "eps literals 1e-12..1 and the default overloads, every wrapper). "
         "non-trivial = a spatial extent > 1 and (kernel > 1 or more than one channel); distinct = distinct case lines")
 THEOREM_STATUS = {
     "proved": ["C17_conv2d_out_shape", "C17_conv1d_out_shape", "C17_sliding_window_elem", "C17_expand_elem", "C17_pad_elem",
